@@ -12,6 +12,7 @@ VERIF = os.path.dirname(HERE)
 sys.path.insert(0, HERE)
 import pipeline
 import propcfg
+import kani_run
 
 REPO = os.environ.get("VERIF_REPO", "/repo")
 
@@ -69,6 +70,51 @@ def write_replay(pid, f, profile, res):
     return path
 
 
+def conformance(seed, rounds):
+    """model/conformance: the trusted hashbrown contract tested against the real crate (an assumption check, not a proof)"""
+    cdir = os.path.join(VERIF, "model", "conformance")
+    tdir = os.path.join(VERIF, ".cache", "conformance-target")
+    binp = os.path.join(tdir, "debug", "hashbrown-model-conformance")
+    src = os.path.join(cdir, "src", "main.rs")
+    t0 = time.time()
+    if not os.path.exists(binp) or os.path.getmtime(binp) < os.path.getmtime(src):
+        r = subprocess.run(["cargo", "build", "--offline", "--target-dir", tdir], cwd=cdir, stdout=subprocess.PIPE, stderr=subprocess.STDOUT, text=True,
+                           env=dict(os.environ, CARGO_NET_OFFLINE="true"))
+        if r.returncode != 0:
+            return {"ok": False, "detail": "conformance crate does not build: " + r.stdout[-400:]}
+    r = subprocess.run([binp, str(seed + 1), str(rounds)], stdout=subprocess.PIPE, stderr=subprocess.PIPE, text=True)
+    if r.returncode != 0:
+        return {"ok": False, "detail": (r.stderr or r.stdout)[-600:], "rounds": rounds}
+    try:
+        d = json.loads(r.stdout.strip().split("\n")[-1])
+    except ValueError:
+        return {"ok": False, "detail": "unparsable output: " + r.stdout[-300:]}
+    return {"ok": True, "rounds": rounds, "checks": d["checks"], "distinct_clauses": d["distinct_clauses"], "wall_s": round(time.time() - t0, 2),
+            "what": "every clause of model/hashbrown_0_14_5.rs that a proof uses, asserted on random real hashbrown 0.14.5 tables (debug assertions on)"}
+
+
+def write_kani_replay(pid, kr):
+    os.makedirs(os.path.join(VERIF, "replays"), exist_ok=True)
+    path = os.path.join(VERIF, "replays", "%s-kani-%s-%s.json" % (pid, kr["harness"], tree_hash()))
+    d = {"property": pid, "failed_obligation": "bounded harness " + kr["harness"], "verifier": "kani/cbmc", "function": "kani/src/lib.rs::harnesses::" + kr["harness"],
+         "failed_checks": kr.get("failed_checks"), "verifier_output": json.dumps(kr)[:3000], "failing_input": None,
+         "source": "kani/src/lib.rs", "note": "re-run: cd /verif/kani && RUSTFLAGS='--cfg miri' cargo kani --harness " + kr["harness"]}
+    # best effort: concrete playback of the counterexample as a native unit test
+    try:
+        r = subprocess.run(["cargo", "kani", "--target-dir", os.path.join(VERIF, ".cache", "kani-target"), "-Z", "concrete-playback", "--concrete-playback=print",
+                            "--exact", "--harness", "harnesses::" + kr["harness"], "--output-format", "terse"], cwd=os.path.join(VERIF, "kani"),
+                           env=dict(os.environ, CARGO_NET_OFFLINE="true", RUSTFLAGS="--cfg miri"), stdout=subprocess.PIPE, stderr=subprocess.STDOUT, text=True, timeout=3600)
+        m = re.search(r"(?s)(#\[test\].*?\n}\n)", r.stdout)
+        if m:
+            d["failing_input"] = m.group(1)
+            open(path[:-5] + ".playback.rs", "w").write(m.group(1))
+            d["native_test_source"] = path[:-5] + ".playback.rs"
+    except Exception as e:  # noqa
+        d["playback_error"] = str(e)[:200]
+    json.dump(d, open(path, "w"), indent=1)
+    return path
+
+
 def main():
     ap = argparse.ArgumentParser()
     ap.add_argument("pid")
@@ -95,10 +141,26 @@ def main():
     t0 = time.time()
     res = pipeline.run_with_demotion(repo=REPO, seed=seed)
     findings, fixed = load_known()
+    conf = conformance(seed, 4000 if a.tier == "thorough" else 300)
+    stability = None
+    kani_results = {}
+    if a.tier == "thorough" and not res.get("undecided"):
+        # solver stability: the same file under three other Z3 seeds; a clause that flips is undischarged
+        stability = []
+        for sd in (seed + 11, seed + 23, seed + 37):
+            r2 = pipeline.run_pipeline(repo=REPO, seed=sd, probes=False, profiles=("on",), demote=tuple(res.get("demoted", [])))
+            fl = sorted(set((f["fn"], f["name"]) for f in r2.get("failures", {}).get("on", [])))
+            stability.append({"z3_random_seed": sd, "verified": r2.get("runs", {}).get("on", {}).get("verified"), "failed": fl,
+                              "undecided": r2.get("undecided")})
+        names = [h["name"] for h in kani_run.registry()["harnesses"] if pid in h["props"]]
+        if names:
+            kani_results = kani_run.run(names, repo=REPO)
     ev_path = os.path.join(VERIF, "evidence", "%s.json" % pid)
     os.makedirs(os.path.dirname(ev_path), exist_ok=True)
 
     undecided = res.get("undecided")
+    if not undecided and not conf.get("ok"):
+        undecided = "the dependency model disagrees with the real hashbrown (conformance test failed): %s" % conf.get("detail", "")[:300]
     lines, violations, known_hits = [], [], []
     if not undecided:
         # functions demoted because the verifier rejected something inside them
@@ -152,6 +214,23 @@ def main():
                         f["profile_only"] = prof
                         violations.append((prof, f))
 
+    if not undecided and stability:
+        base = set((f["fn"], f["name"]) for fl in res["failures"].values() for f in fl)
+        for st in stability:
+            for fn_, name_ in st["failed"]:
+                if (fn_, name_) not in base:
+                    st.setdefault("flipped", []).append([fn_, name_])
+        flipped = [x for st in stability for x in st.get("flipped", [])]
+        mine = [x for x in flipped if pid in res["fn_props"].get(x[0], [])]
+        if mine:
+            undecided = "solver instability: obligation(s) %s fail under another Z3 seed" % mine
+    kani_viol = []
+    for n, kr in kani_results.items():
+        if kr["status"] == "failed":
+            kani_viol.append(kr)
+        elif kr["status"] in ("build-failed",):
+            if not undecided and not violations:
+                undecided = "Kani harness crate does not build against this tree: %s" % kr.get("detail", "")[-300:]
     # ---- evidence
     clauses = res.get("prop_clauses", {}).get(pid, []) if not res.get("undecided") else []
     fns = sorted(set(c["fn"] for c in clauses))
@@ -217,9 +296,16 @@ def main():
         "violations": [{"obligation": f["name"], "function": f["fn"], "message": f["msg"], "profile": prof,
                         "statement": f["text"]} for prof, f in violations],
         "undecided": undecided, "demoted_functions": res.get("demoted", []),
+        "conformance": conf, "solver_stability": stability,
+        "bounded_kani": ({"config": kani_run.registry()["config"], "prefix": kani_run.registry()["prefix"],
+                          "harnesses": [dict(kr, **{k: v for k, v in next(h for h in kani_run.registry()["harnesses"] if h["name"] == n).items() if k in ("unwind", "symbolic", "claim", "props")})
+                                        for n, kr in kani_results.items()]}
+                         if a.tier == "thorough" else
+                         {"not_run": "bounded Kani harnesses run in the thorough tier only",
+                          "harnesses_for_this_property": [h["name"] for h in kani_run.registry()["harnesses"] if pid in h["props"]]}),
     }
     ev = {"property_id": pid, "tier": a.tier, "seed": seed, "level": cfg["level"], "coverage": cov,
-          "assumptions": assumptions, "wall_s": round(time.time() - t0, 2), "violations": len(violations)}
+          "assumptions": assumptions, "wall_s": round(time.time() - t0, 2), "violations": len(violations) + len(kani_viol)}
     if cfg["level"] != "proof":
         cov["evaluations"] = max(ob_total, 1)
         cov["distinct_nontrivial"] = max(len(clauses), 2)
@@ -230,12 +316,19 @@ def main():
         sys.exit(2)
     for f, k in known_hits:
         print("KNOWN-FINDING: property=%s %s at %s (%s) -- %s" % (pid, f["name"], f["fn"], f["text"][:80], k["text"]))
+    for kr in kani_viol:
+        path = write_kani_replay(pid, kr)
+        print("bounded harness %s FAILED: %s" % (kr["harness"], "; ".join(kr.get("failed_checks", []))[:300]))
+        suffix = "" if json.load(open(path)).get("failing_input") else " no-failing-input-found"
+        print("VIOLATION property=%s replay=%s%s" % (pid, path, suffix))
     if violations:
         for prof, f in violations:
             path = write_replay(pid, f, prof, res)
             extra = (" (only with debug-assertions=%s)" % f["profile_only"]) if f.get("profile_only") else ""
             print("failed obligation %s in %s%s: %s | %s" % (f["name"], f["fn"], extra, f["msg"], f["text"][:120]))
             print("VIOLATION property=%s replay=%s no-failing-input-found" % (pid, path))
+        sys.exit(1)
+    if kani_viol:
         sys.exit(1)
     print("OK property=%s tier=%s: %d labelled clauses, %d/%d verification conditions discharged in %d functions (%s), %.1fs" % (
         pid, a.tier, len(clauses), discharged, ob_total, len(fn_rows),
